@@ -24,7 +24,7 @@ AllNames == << <<>>, <<A>>, <<SPACE>>, <<USCORE>>, <<A, SQUOTE, SQUOTE>>, <<LPAR
 Names == { AllNames[i] : i \in 1..NamePool }
 Dists == 0..DistPool
 Seps == { <<>>, <<SPACE>>, <<LF>>, <<CR, LF>>, <<TAB>> }
-Seconds == { <<Node(0, <<A>>, 0)>>,
+Seconds == { <<Node(0, <<A>>, 0)>>, <<Node(0, <<>>, 0)>>,        \* the second: the bare tree ";"
              <<Node(0, <<>>, 0), Node(1, <<SQUOTE>>, 1), Node(1, <<>>, 0)>> }
 Classes == {LPAR, RPAR, COMMA, COLON, SEMI, SQUOTE, USCORE, SPACE, TAB, LF, CR, A, D1}
 TotalClasses == {LPAR, RPAR, COMMA, COLON, SEMI, SQUOTE, SPACE, A, D1}
